@@ -26,10 +26,13 @@ type Opt struct {
 	MultiProv    int // percentage of top-level value processes declared with two names (contractable modes)
 	Drop         int
 	Split        int
+	Tail         int // percentage: hand the whole context to a helper function by a tail call
+	TopCall      int // percentage: a top-level process with free names is just a call
+	Reuse        int // percentage: a cut re-binds the name of an argument its call consumes (x <- new f(x))
 }
 
 func DefaultOpt(r *rand.Rand) Opt {
-	o := Opt{MaxSplit: 3, Pol: 4, Alias: 30, ExplicitSelf: 10, ExplicitProv: 10, Exec: 15, Print: 12, TopMax: 3, Fuel: 3, MultiProv: 25, Drop: 12, Split: 14}
+	o := Opt{MaxSplit: 3, Pol: 4, Alias: 30, ExplicitSelf: 10, ExplicitProv: 10, Exec: 15, Print: 12, TopMax: 3, Fuel: 3, MultiProv: 25, Drop: 12, Split: 14, Tail: 8}
 	switch r.Intn(10) {
 	case 0, 1, 2:
 		o.Mixed = true
@@ -81,6 +84,15 @@ func Generate(seed int64, opt *Opt) (*Program, Opt, int) {
 }
 
 func tryGenerate(r *rand.Rand, o Opt) (p *Program, ok bool) {
+	if o.Tail == 0 {
+		o.Tail = 8
+	}
+	if o.TopCall == 0 {
+		o.TopCall = 10
+	}
+	if o.Reuse == 0 {
+		o.Reuse = 12
+	}
 	g := &G{R: r, O: o, Env: Env{}, P: &Program{Feat: map[string]int{}}, mk: map[string]string{}, cons: map[string]string{}, lib: map[string]bool{}, budget: 1500}
 	defer func() {
 		if e := recover(); e != nil {
@@ -424,7 +436,10 @@ func (g *G) gen(ctx []Var, A *Ty, fuel int, self string) *Term {
 			g.feat("fwd")
 			return &Term{Op: "fwd", X: g.pol(g.selfRef(self), A), Y: g.pol(ctx[0].N, A)}
 		}
-		if fuel > 0 && g.coin(8) {
+		if t := g.clientAxiom(ctx, A, fuel, self); t != nil {
+			return t
+		}
+		if fuel > 0 && g.coin(g.O.Tail) {
 			return g.tailCall(ctx, A, fuel, self)
 		}
 		if pos && fuel > 0 && g.coin(15) {
@@ -540,6 +555,10 @@ func (g *G) rightPosWithCtx(ctx []Var, A, U *Ty, fuel int, self string) *Term {
 		}
 		g.helperBody(f, fuel-1)
 		a := g.fresh("a")
+		if g.coin(g.O.Reuse) {
+			a = part[0].N
+			g.feat("cut-reuse")
+		}
 		return func(c *Term) *Term {
 			return &Term{Op: "new", Y: a, Body: &Term{Op: "call", Fn: f.Name, Args: args}, Cont: c}
 		}, a
@@ -601,7 +620,7 @@ func (g *G) elimX(ctx []Var, i int, A *Ty, fuel int, noDeleg bool, self string) 
 	if x.T.M.Contract() && g.splits < g.O.MaxSplit && g.coin(g.O.Split) {
 		g.splits++
 		g.feat("split")
-		x1, x2 := g.fresh("s"), g.fresh("s")
+		x1, x2 := g.fresh("s"), g.rebind(g.fresh("s"), x.N)
 		return &Term{Op: "split", X: g.pol(x.N, x.T), Y: x1, Z: x2, Cont: g.gen(append(rest, Var{x1, x.T}, Var{x2, x.T}), A, fuel, self)}
 	}
 	rec := g.libBase(x.T) != ""
@@ -609,6 +628,10 @@ func (g *G) elimX(ctx []Var, i int, A *Ty, fuel int, noDeleg bool, self string) 
 		// delegate to a consumer providing 1 at the current mode
 		fn := g.consFunc(x.T, m, fuel)
 		u := g.fresh("u")
+		if g.coin(g.O.Reuse) {
+			u = x.N // the call consumes x, the cut binds the name again
+			g.feat("cut-reuse")
+		}
 		g.feat("consume")
 		return &Term{Op: "new", Y: u, Body: &Term{Op: "call", Fn: fn, Args: []string{g.pol(x.N, x.T)}}, Cont: &Term{Op: "wait", X: u, Cont: g.gen(rest, A, fuel, self)}}
 	}
@@ -616,19 +639,19 @@ func (g *G) elimX(ctx []Var, i int, A *Ty, fuel int, noDeleg bool, self string) 
 	case KUnit:
 		return &Term{Op: "wait", X: g.pol(x.N, x.T), Cont: g.gen(rest, A, fuel, self)}
 	case KSend:
-		y, z := g.fresh("y"), g.fresh("z")
+		y, z := g.fresh("y"), g.rebind(g.fresh("z"), x.N)
 		g.feat("recvL")
 		return &Term{Op: "recv", X: g.pol(x.N, x.T), Y: y, Z: z, Cont: g.gen(append(rest, Var{y, U.L}, Var{z, U.R}), A, fuel, self)}
 	case KPlus:
 		t := &Term{Op: "case", X: g.pol(x.N, x.T)}
 		g.feat("caseL")
 		for _, br := range U.Br {
-			y := g.fresh("y")
+			y := g.rebind(g.fresh("y"), x.N)
 			t.Brs = append(t.Brs, CaseBr{br.L, y, g.gen(append(cp(rest), Var{y, br.T}), A, fuel-1, self)})
 		}
 		return t
 	case KDown:
-		y := g.fresh("y")
+		y := g.rebind(g.fresh("y"), x.N)
 		g.feat("shiftL")
 		return &Term{Op: "shift", X: g.pol(x.N, x.T), Y: y, Cont: g.gen(append(rest, Var{y, U.L}), A, fuel, self)}
 	case KRecv:
@@ -708,6 +731,9 @@ func (g *G) program() *Program {
 		var body *Term
 		if g.libBase(T) == "srv" && len(ctx) == 0 {
 			body = &Term{Op: "call", Fn: g.srvFunc(T)}
+		} else if len(ctx) > 0 && g.coin(g.O.TopCall) {
+			body = g.tailCall(ctx, T, g.O.Fuel, "self")
+			g.feat("top-call")
 		} else {
 			body = g.gen(ctx, T, g.O.Fuel, self)
 		}
@@ -754,4 +780,56 @@ func (g *G) upsOK(t *Ty, c Mode, seen map[string]bool) bool {
 		return true
 	}
 	return g.upsOK(t.L, c, seen) && g.upsOK(t.R, c, seen)
+}
+
+// clientAxiom: the whole process is one axiomatic left rule whose continuation is self
+// (send x<b, self>, x.l<self>, cast x<self>): possible when x's continuation type is A.
+func (g *G) clientAxiom(ctx []Var, A *Ty, fuel int, self string) *Term {
+	if len(ctx) > 2 || !g.coin(45) {
+		return nil
+	}
+	for i, x := range ctx {
+		rest := rm(ctx, i)
+		U := Unfold(x.T, g.Env)
+		switch U.K {
+		case KRecv:
+			if !Equal(U.R, A, g.Env) {
+				continue
+			}
+			if len(rest) == 1 && Equal(rest[0].T, U.L, g.Env) {
+				g.feat("client-axiom-send")
+				return &Term{Op: "send", X: g.pol(x.N, x.T), Y: g.pol(rest[0].N, U.L), Z: g.selfRef(self)}
+			}
+			if len(rest) == 0 {
+				w, b := g.producer(U.L, fuel-1)
+				g.feat("client-axiom-send")
+				return w(&Term{Op: "send", X: g.pol(x.N, x.T), Y: b, Z: g.selfRef(self)})
+			}
+		case KWith:
+			if len(rest) != 0 {
+				continue
+			}
+			for _, br := range U.Br {
+				if Equal(br.T, A, g.Env) {
+					g.feat("client-axiom-select")
+					return &Term{Op: "sel", X: g.pol(x.N, x.T), Lbl: br.L, Y: g.selfRef(self)}
+				}
+			}
+		case KUp:
+			if len(rest) == 0 && U.From == A.M && Equal(U.L, A, g.Env) {
+				g.feat("client-axiom-cast")
+				return &Term{Op: "cast", X: g.pol(x.N, x.T), Y: g.selfRef(self)}
+			}
+		}
+	}
+	return nil
+}
+
+// rebind: with probability Reuse the binder takes the name of the channel just consumed.
+func (g *G) rebind(fresh, consumed string) string {
+	if g.coin(g.O.Reuse) {
+		g.feat("rebind-consumed")
+		return consumed
+	}
+	return fresh
 }
